@@ -60,6 +60,14 @@ type Term struct {
 	C    uint64 // constant value (masked) or bool (0/1)
 	Name string // variable name
 	A, B int    // extract hi/lo; ext amount in A
+	lin  *linForm
+}
+
+// linForm: k + Σ coefs[i]*atoms[i] modulo 2^W, atoms sorted by ID (canonical linear normal form).
+type linForm struct {
+	atoms []*Term
+	coefs []uint64
+	k     uint64
 }
 
 type TermStore struct {
@@ -269,6 +277,42 @@ func (ts *TermStore) Eq(a, b *Term) *Term {
 	if a.IsConst() && b.Op == OpIte && b.Args[1].IsConst() && b.Args[2].IsConst() {
 		return ts.Ite(b.Args[0], ts.Bool(b.Args[1].C == a.C), ts.Bool(b.Args[2].C == a.C))
 	}
+	if a.W > 0 {
+		// cancel common linear parts: a == b  <=>  pos == neg with d = a - b split by coefficient sign
+		la, lb := ts.linOf(a), ts.linOf(b)
+		if len(la.atoms)+len(lb.atoms) > 0 && (len(la.atoms) > 1 || len(lb.atoms) > 1 || la.k != 0 && len(la.atoms) > 0 || lb.k != 0 && len(lb.atoms) > 0 || (len(la.atoms) == 1 && la.coefs[0] != 1) || (len(lb.atoms) == 1 && lb.coefs[0] != 1) || (len(la.atoms) == 1 && len(lb.atoms) == 1)) {
+			d := linMerge(la, lb, ^uint64(0), a.W)
+			if len(d.atoms) == 0 {
+				return ts.Bool(d.k == 0)
+			}
+			half := uint64(1) << uint(a.W-1)
+			pos := &linForm{}
+			neg := &linForm{}
+			for i, at := range d.atoms {
+				if d.coefs[i] < half {
+					pos.atoms = append(pos.atoms, at)
+					pos.coefs = append(pos.coefs, d.coefs[i])
+				} else {
+					neg.atoms = append(neg.atoms, at)
+					neg.coefs = append(neg.coefs, (-d.coefs[i])&mask(a.W))
+				}
+			}
+			// Σpos + k == Σneg ; a "negative" constant moves to the right-hand side
+			if d.k < half {
+				pos.k = d.k
+			} else {
+				neg.k = (-d.k) & mask(a.W)
+			}
+			a = ts.buildLin(pos, a.W)
+			b = ts.buildLin(neg, a.W)
+			if a == b {
+				return ts.True
+			}
+			if a.IsConst() && b.IsConst() {
+				return ts.Bool(a.C == b.C)
+			}
+		}
+	}
 	if a.ID > b.ID {
 		a, b = b, a
 	}
@@ -408,13 +452,39 @@ func (ts *TermStore) bin(op Op, a, b *Term) *Term {
 		if b.IsConst() && b.C == 0 {
 			return a
 		}
+	case OpSDiv, OpUDiv:
+		if b.IsConst() && b.C == 1 {
+			return a
+		}
+	case OpSRem, OpURem:
+		if b.IsConst() && b.C == 1 {
+			return ts.BV(0, w)
+		}
 	}
 	return ts.mk(&Term{Op: op, W: w, Args: []*Term{a, b}})
 }
 
-func (ts *TermStore) Add(a, b *Term) *Term  { return ts.bin(OpAdd, a, b) }
-func (ts *TermStore) Sub(a, b *Term) *Term  { return ts.bin(OpSub, a, b) }
-func (ts *TermStore) Mul(a, b *Term) *Term  { return ts.bin(OpMul, a, b) }
+func (ts *TermStore) Add(a, b *Term) *Term {
+	if a.IsConst() && b.IsConst() {
+		return ts.bin(OpAdd, a, b)
+	}
+	return ts.buildLin(linMerge(ts.linOf(a), ts.linOf(b), 1, a.W), a.W)
+}
+func (ts *TermStore) Sub(a, b *Term) *Term {
+	if a.IsConst() && b.IsConst() {
+		return ts.bin(OpSub, a, b)
+	}
+	return ts.buildLin(linMerge(ts.linOf(a), ts.linOf(b), ^uint64(0), a.W), a.W)
+}
+func (ts *TermStore) Mul(a, b *Term) *Term {
+	if a.IsConst() && !b.IsConst() {
+		a, b = b, a
+	}
+	if b.IsConst() && !a.IsConst() {
+		return ts.buildLin(linScale(ts.linOf(a), b.C, a.W), a.W)
+	}
+	return ts.bin(OpMul, a, b)
+}
 func (ts *TermStore) UDiv(a, b *Term) *Term { return ts.bin(OpUDiv, a, b) }
 func (ts *TermStore) URem(a, b *Term) *Term { return ts.bin(OpURem, a, b) }
 func (ts *TermStore) SDiv(a, b *Term) *Term { return ts.bin(OpSDiv, a, b) }
@@ -430,7 +500,130 @@ func (ts *TermStore) Neg(a *Term) *Term {
 	if a.IsConst() {
 		return ts.BV(-a.C, a.W)
 	}
-	return ts.mk(&Term{Op: OpNeg, W: a.W, Args: []*Term{a}})
+	return ts.buildLin(linScale(ts.linOf(a), ^uint64(0), a.W), a.W)
+}
+
+// linOf returns the linear form of a bit-vector term (cached).
+func (ts *TermStore) linOf(t *Term) *linForm {
+	if t.lin != nil {
+		return t.lin
+	}
+	var l *linForm
+	switch {
+	case t.Op == OpConst:
+		l = &linForm{k: t.C}
+	case t.Op == OpAdd:
+		l = linMerge(ts.linOf(t.Args[0]), ts.linOf(t.Args[1]), 1, t.W)
+	case t.Op == OpSub:
+		l = linMerge(ts.linOf(t.Args[0]), ts.linOf(t.Args[1]), ^uint64(0), t.W)
+	case t.Op == OpNeg:
+		l = linScale(ts.linOf(t.Args[0]), ^uint64(0), t.W)
+	case t.Op == OpMul && t.Args[1].IsConst():
+		l = linScale(ts.linOf(t.Args[0]), t.Args[1].C, t.W)
+	case t.Op == OpMul && t.Args[0].IsConst():
+		l = linScale(ts.linOf(t.Args[1]), t.Args[0].C, t.W)
+	default:
+		l = &linForm{atoms: []*Term{t}, coefs: []uint64{1}}
+	}
+	t.lin = l
+	return l
+}
+
+// linMerge computes a + s*b (mod 2^w).
+func linMerge(a, b *linForm, s uint64, w int) *linForm {
+	m := mask(w)
+	r := &linForm{k: (a.k + s*b.k) & m}
+	i, j := 0, 0
+	for i < len(a.atoms) || j < len(b.atoms) {
+		switch {
+		case j >= len(b.atoms) || (i < len(a.atoms) && a.atoms[i].ID < b.atoms[j].ID):
+			r.atoms = append(r.atoms, a.atoms[i])
+			r.coefs = append(r.coefs, a.coefs[i])
+			i++
+		case i >= len(a.atoms) || b.atoms[j].ID < a.atoms[i].ID:
+			c := (s * b.coefs[j]) & m
+			if c != 0 {
+				r.atoms = append(r.atoms, b.atoms[j])
+				r.coefs = append(r.coefs, c)
+			}
+			j++
+		default:
+			c := (a.coefs[i] + s*b.coefs[j]) & m
+			if c != 0 {
+				r.atoms = append(r.atoms, a.atoms[i])
+				r.coefs = append(r.coefs, c)
+			}
+			i++
+			j++
+		}
+	}
+	return r
+}
+
+func linScale(a *linForm, s uint64, w int) *linForm {
+	m := mask(w)
+	r := &linForm{k: (a.k * s) & m}
+	for i, at := range a.atoms {
+		c := (a.coefs[i] * s) & m
+		if c != 0 {
+			r.atoms = append(r.atoms, at)
+			r.coefs = append(r.coefs, c)
+		}
+	}
+	return r
+}
+
+// buildLin builds the canonical term of a linear form.
+func (ts *TermStore) buildLin(l *linForm, w int) *Term {
+	if len(l.atoms) == 0 {
+		return ts.BV(l.k, w)
+	}
+	if len(l.atoms) == 1 && l.coefs[0] == 1 && l.k == 0 {
+		return l.atoms[0]
+	}
+	half := uint64(1) << uint(w-1)
+	var acc *Term
+	// positive coefficients first
+	for i, at := range l.atoms {
+		c := l.coefs[i]
+		if c >= half {
+			continue
+		}
+		var t *Term
+		if c == 1 {
+			t = at
+		} else {
+			t = ts.mk(&Term{Op: OpMul, W: w, Args: []*Term{at, ts.BV(c, w)}})
+		}
+		if acc == nil {
+			acc = t
+		} else {
+			acc = ts.mk(&Term{Op: OpAdd, W: w, Args: []*Term{acc, t}})
+		}
+	}
+	for i, at := range l.atoms {
+		c := l.coefs[i]
+		if c < half {
+			continue
+		}
+		nc := (-c) & mask(w)
+		var t *Term
+		if nc == 1 {
+			t = at
+		} else {
+			t = ts.mk(&Term{Op: OpMul, W: w, Args: []*Term{at, ts.BV(nc, w)}})
+		}
+		if acc == nil {
+			acc = ts.mk(&Term{Op: OpNeg, W: w, Args: []*Term{t}})
+		} else {
+			acc = ts.mk(&Term{Op: OpSub, W: w, Args: []*Term{acc, t}})
+		}
+	}
+	if l.k != 0 {
+		acc = ts.mk(&Term{Op: OpAdd, W: w, Args: []*Term{acc, ts.BV(l.k, w)}})
+	}
+	acc.lin = l
+	return acc
 }
 
 func (ts *TermStore) BNot(a *Term) *Term {
@@ -665,3 +858,58 @@ func (t *Term) String() string {
 }
 
 var _ = bits.Len
+
+// ---------------------------------------------------------------------------
+// Integer-mode printing (used only for queries whose terms were proven overflow-free, see intsafe.go)
+
+func sortStrI(w int) string {
+	if w == 0 {
+		return "Bool"
+	}
+	return "Int"
+}
+
+func constStrI(t *Term) string {
+	if t.W == 0 {
+		return constStr(t)
+	}
+	v := sext(t.C, t.W)
+	if v < 0 {
+		if v == -9223372036854775808 {
+			return "(- 9223372036854775808)"
+		}
+		return fmt.Sprintf("(- %d)", -v)
+	}
+	return fmt.Sprintf("%d", v)
+}
+
+func smtNameI(t *Term) string {
+	switch t.Op {
+	case OpConst:
+		return constStrI(t)
+	case OpVar:
+		return "|" + t.Name + "|"
+	}
+	return fmt.Sprintf("t%d", t.ID)
+}
+
+var opNamesI = map[Op]string{
+	OpNot: "not", OpAnd: "and", OpOr: "or", OpIte: "ite", OpEq: "=",
+	OpAdd: "+", OpSub: "-", OpMul: "*", OpNeg: "-", OpSLT: "<", OpULT: "<", OpSDiv: "div", OpSRem: "mod", OpUDiv: "div", OpURem: "mod",
+}
+
+func smtBodyI(t *Term) string {
+	var sb strings.Builder
+	n, ok := opNamesI[t.Op]
+	if !ok {
+		panic("integer mode: unsupported op " + opNames[t.Op])
+	}
+	sb.WriteString("(")
+	sb.WriteString(n)
+	for _, a := range t.Args {
+		sb.WriteString(" ")
+		sb.WriteString(smtNameI(a))
+	}
+	sb.WriteString(")")
+	return sb.String()
+}
